@@ -14,9 +14,15 @@ interval (`b < a` included) — with `∫_a^b ∫_a^b ((f x - f y)/(x - y))² dy
 H^{1/2} statement for polynomial data remains in the trusted base.
 
 The H^{1/4} routine (`semi14`, kernel `|x - y|^{-3/2}`): the integrand `(f x - f y)² |x - y|^{-3/2}` is NOT a polynomial
-(after dividing out `(x - y)²` the factor `|x - y|^{1/2}` remains), so the argument does not apply; `semi14_exact_partial`
-stays partial: identification of its rule-independent value with the improper double integral (Duffy substitution for the
-weight `y^{-1/2}`, `sqrtinv_weight_moment`) is still trusted calculus.
+(after dividing out `(x - y)²` the factor `|x - y|^{1/2}` remains), so the argument above does not apply verbatim.  It is
+nevertheless PROVED now, in `Props/C14Integral14.lean` (lemmas `Lemmas/Slobo14Integral{,Tri,Sq}.lean`): after the Duffy
+substitution the summand of the routine is a polynomial `P(x, y)` against the weights `x^{-1/2} y^{-1/2}`, so
+`semi14 = ∫₀¹∫₀¹ P x^{-1/2} y^{-1/2}` moment by moment (`semi14_eq_integral_ref`), two affine substitutions give
+`h^{-1/2} · 2 ∫_a^{a+h} ∫_a^t (f t - f s)² / (t - s)^{3/2} ds dt` (`semi14_eq_integral_triangle`), and Fubini for the continuous
+symmetric kernel `|t - s|^{1/2} D(t, s)²` gives the Slobodeckij double integral over the square (`semi14_eq_integral_square`,
+`semi14_exact`: `√h · semi14 = ∫_a^{a+h} ∫_a^{a+h} (f x - f y)² / |x - y|^{3/2} dy dx` for `0 < h`).  `semi14_exact_partial` keeps its
+name; its value is that integral (`semi14_exact_value`).  Nothing of C14's exactness statements for polynomial data remains
+trusted calculus.
 -/
 namespace Stbem.C14
 open Stbem.Quad intervalIntegral
